@@ -231,6 +231,8 @@ pub struct HCtx {
     pub web: Option<WebServer>,
     /// WebServer objects of the other server instances (see Ctx::switch_inst)
     pub webs: std::collections::HashMap<u32, WebServer>,
+    /// an armed intrusion (see store::Intrude): symbolic client, its payload
+    pub intr: Option<(u32, Vec<u8>)>,
 }
 
 fn id_form(u: Uuid, form: &str) -> Vec<u8> {
@@ -261,7 +263,7 @@ pub fn id_form_ok(form: &str) -> bool {
 impl HCtx {
     pub fn new(backend: Backend, seed: u64) -> Self {
         let l1 = Ctx::new(backend, seed);
-        let mut h = HCtx { l1, allow: None, web: None, webs: std::collections::HashMap::new() };
+        let mut h = HCtx { l1, allow: None, web: None, webs: std::collections::HashMap::new(), intr: None };
         h.rebuild();
         h
     }
@@ -292,7 +294,30 @@ impl HCtx {
         let now = chrono::Utc::now().timestamp();
         let raw = run_request(web, &prep);
         let calls = store.take_log().join(",");
+        let pre = self.intrusion_lines(now);
+        self.l1.out.extend(pre);
         self.finish(prep, raw, now, Some(calls));
+    }
+
+    /// if the armed intrusion fired during the request(s) just run: the lines of what the other instance did
+    /// (ensure + one accepted version on the nil parent), to be placed BEFORE the lines of those requests —
+    /// the request's first, failed transaction had no effect, so "the other instance first" is the
+    /// one-at-a-time order
+    fn intrusion_lines(&mut self, now: i64) -> Vec<String> {
+        let Some((c, data)) = self.intr.take() else { return vec![] };
+        let st = self.l1.store.as_ref().unwrap().clone();
+        let taken = st.intrude.lock().unwrap().take();
+        let Some(i) = taken else { return vec![] };
+        if !i.fired {
+            return vec!["OP mark intrusion-not-reached".into(), "R mark".into()];
+        }
+        let cu = self.l1.client(c);
+        let cc = self.l1.canon.id(cu);
+        let vn = self.l1.canon.id(i.version);
+        self.l1.accepted.entry(c).or_default().push((i.version, Uuid::nil()));
+        let cd = self.l1.canon.payload(&data);
+        vec![format!("OP ensure {cc}"), "R unit".into(), format!("OP av {cc} 0 {vn} {now} {cd}"),
+             format!("R {}", if i.failed { "error".to_string() } else { format!("added {vn} high") })]
     }
 
     /// resolve symbolic parts against the current state and build the raw request bytes
@@ -517,9 +542,13 @@ impl HCtx {
                 let preps: Vec<Prepared> = reqs.iter().map(|r| { let t: Vec<&str> = r.iter().map(|s| s.as_str()).collect(); self.build(&t[1..]) }).collect();
                 let web = self.web.as_ref().unwrap().clone();
                 let now = chrono::Utc::now().timestamp();
-                self.l1.out.push(format!("OP mark ileave {}", preps.len()));
+                let at = self.l1.out.len();
+                // (with an intrusion armed the outcome is determined: the requests are compared with the model one by one)
+                self.l1.out.push(format!("OP mark {} {}", if self.intr.is_some() { "oneworker" } else { "ileave" }, preps.len()));
                 self.l1.out.push("R mark".into());
                 let res = run_interleaved(web, &preps);
+                let pre = self.intrusion_lines(now);
+                self.l1.out.splice(at..at, pre);
                 match res {
                     Ok(v) => {
                         for (p, r) in preps.into_iter().zip(v.into_iter()) {
@@ -540,6 +569,16 @@ impl HCtx {
                 let reqs: Vec<Vec<String>> = reqs_s.split("||").map(|r| r.split_whitespace().map(|x| x.to_string()).collect()).collect();
                 let sched: Vec<String> = sched_s.split_whitespace().map(|x| x.to_string()).collect();
                 self.conc(mode, reqs, sched);
+            }
+            ["intrude", n, c, pl] => {
+                // intrude N C PAYLOAD: before the N-th transaction begin from now (0 = the next one), another instance
+                // uploads client C's first version (parent nil, PAYLOAD), creating the client if need be
+                let c: u32 = c.parse().unwrap();
+                let cu = self.l1.client(c);
+                let data = self.l1.payload(pl);
+                let st = self.l1.store.as_ref().expect("intrude needs the wrapper").clone();
+                *st.intrude.lock().unwrap() = Some(crate::store::Intrude { at_begin: n.parse().unwrap(), client: cu, version: Uuid::new_v4(), data: data.clone(), seen: 0, fired: false, failed: false });
+                self.intr = Some((c, data));
             }
             ["fixture", _name] | ["deadstart", _name] => {
                 self.l1.exec(toks);
